@@ -146,7 +146,7 @@ def run(tier):
     rp.cov["own_history"] = {"histories": oh["histories"], "steps": oh["steps"], "snapshot_comparisons": oh["checks"], "releases": oh["releases"],
                              "objects_put": oh["objects_put"], "objects_reused_through_pools": oh["gets_reused"],
                              "releases_beyond_cutoff": oh["releases_beyond_cutoff"], "trees_with_shared_objects": oh["trees_with_shared_objects"],
-                             "model_cases": len(hists), "model_shards": mshards, "model_disagreements": len(mbad),
+                             "model_cases": len(hists), "model_shards": mshards, "model_disagreements": len(mbad), "cutoff_order_differs_from_model": len(mdiag.get("rescued") or []),
                              "distinct_nontrivial_histories": len(distinct_hist), "lossy_histories": sum(1 for h in hists if h.get("lossy"))}
     rp.cov["samples"] = (ph.get("samples") or [])[:1] + (hh.get("samples") or [])[:1] + (oh.get("samples") or [])[:2] + [{"table_row": tables["pools"][0]}, {"own_row": own_rows[0] if own_rows else None}]
     rp.assumptions = ["sync.Pool returns only objects previously Put into the same pool or built by New (modelled as nondeterministic choice: the history chooses)",
